@@ -74,11 +74,24 @@ def d():
     v = DEC.pop(0) if DEC else 0
     LOG.append(('d', v))
     return bool(v)
+class _It(object):
+    """one-shot iterator whose every fetch is an externally visible event"""
+    def __init__(self, k):
+        self.k = k
+        self.i = 0
+    def __iter__(self):
+        return self
+    def __next__(self):
+        LOG.append(('next', self.i, self.k))
+        if self.i >= self.k:
+            raise StopIteration
+        self.i += 1
+        return self.i - 1
 def n():
-    """external trip count: pops the next decision as a small range"""
+    """external trip count: pops the next decision; returns a logging one-shot iterator over range(v % 3)"""
     v = DEC.pop(0) if DEC else 0
     LOG.append(('n', v))
-    return range(int(v) % 3)
+    return _It(int(v) % 3)
 class cm(object):
     def __init__(self, tag):
         self.tag = tag
@@ -711,3 +724,102 @@ def random_programs(rng, n, size=12, profile='c01'):
             continue
         made += 1
         yield p
+
+
+# -------------------------------------------------------------------------------------------------
+# jump-context family: every jump kind under every nesting path of syntactic contexts, with/without trailing
+# statements at every level (the space the guard-placement logic of the jump passes is about)
+# -------------------------------------------------------------------------------------------------
+JUMP_CONTEXTS = ['if', 'else', 'try', 'handler', 'tryfin', 'with', 'loop']
+
+
+def _jump_program(jump, loopkind, path, trailing, guarded, k0=0):
+    """`path`: contexts from the loop body down to the jump; `trailing[i]`: a statement follows context i at its level;
+    `guarded`: the jump itself sits under `if d():` (else it is unconditional, last in its block)."""
+    lines = ['def f(a, b, c):', '    x = a', '    y = b', '    z = c']
+    k = [k0]
+
+    def slot():
+        k[0] += 1
+        return k[0]
+    ind = '    '
+    lines.append(ind + ('while d():' if loopkind == 'while' else 'for i in n():'))
+    ind += '    '
+    lines.append(ind + 'x = tr(%d, x)' % slot())
+    closers = []     # (indent, lines to emit after the nested part at that level)
+    for depth, ctx in enumerate(path):
+        after = []
+        if ctx == 'if':
+            lines.append(ind + 'if d():')
+        elif ctx == 'else':
+            lines.append(ind + 'if d():')
+            lines.append(ind + '    y = tr(%d, y)' % slot())
+            lines.append(ind + 'else:')
+        elif ctx == 'try':
+            lines.append(ind + 'try:')
+            after = [ind + 'except E1:', ind + '    z = tr(%d, z)' % slot()]
+        elif ctx == 'handler':
+            lines.append(ind + 'try:')
+            lines.append(ind + '    if d():')
+            lines.append(ind + '        raise E1(tr(%d))' % slot())
+            lines.append(ind + 'except E1:')
+        elif ctx == 'tryfin':
+            lines.append(ind + 'try:')
+            after = [ind + 'finally:', ind + '    z = tr(%d, z)' % slot()]
+        elif ctx == 'with':
+            lines.append(ind + 'with cm(%d):' % slot())
+        elif ctx == 'loop':
+            lines.append(ind + 'for j in n():')
+        if trailing[depth]:
+            after = after + [ind + 'y = tr(%d, x, y)' % slot()]
+        closers.append(after)
+        ind += '    '
+    lines.append(ind + 'y = tr(%d, y)' % slot())
+    js = {'break': 'break', 'continue': 'continue', 'return': 'return tr(%d, x, y)' % slot(), 'raise': 'raise E2(tr(%d))' % slot()}[jump]
+    if guarded:
+        lines.append(ind + 'if d():')
+        lines.append(ind + '    ' + js)
+        lines.append(ind + 'z = tr(%d, z)' % slot())
+    else:
+        lines.append(ind + js)
+    for after in reversed(closers):
+        lines.extend(after)
+    lines.append('        x = tr(%d, x, z)' % slot())
+    lines.append('    return tr(0, x, y, z)')
+    return '\n'.join(lines) + '\n'
+
+
+def jump_context_space(max_depth):
+    out = []
+    for jump in ('break', 'continue', 'return', 'raise'):
+        for loopkind in ('while', 'for'):
+            for depth in range(0, max_depth + 1):
+                for path in itertools.product(JUMP_CONTEXTS, repeat=depth):
+                    # a `loop` context captures break/continue: still interesting (inner-loop jump must not leak)
+                    for trailing in itertools.product((False, True), repeat=depth):
+                        for guarded in (True, False):
+                            out.append((jump, loopkind, path, trailing, guarded))
+    return out
+
+
+def jump_context_programs(max_depth=2, cap=None, rng=None, info=None):
+    """Bounded-exhaustive: every jump kind x loop kind x nesting path of contexts (if / else / try body / except handler /
+    try-with-finally body / with / inner loop) up to `max_depth`, x trailing statements present/absent at each level x
+    jump guarded by a condition or not.  Stride-sampled with a seed-derived offset when over `cap`."""
+    rng = rng or random.Random(0)
+    space = jump_context_space(max_depth)
+    ntot = len(space)
+    if cap is None or ntot <= cap:
+        idxs = range(ntot); exhaustive = True
+    else:
+        stride = ntot // cap
+        off = rng.randrange(stride)
+        idxs = range(off, ntot, stride); exhaustive = False
+    if info is not None:
+        info.update({'jump_space': ntot, 'jump_cap': cap, 'jump_exhaustive': exhaustive, 'jump_max_depth': max_depth})
+    for ix in idxs:
+        jump, loopkind, path, trailing, guarded = space[ix]
+        src = _jump_program(jump, loopkind, path, trailing, guarded)
+        prng = random.Random(ix * 7919 + 13)
+        yield Program(PRELUDE + src, [(1, 2, 3)], set(path) | {jump, loopkind, 'jumpctx'}, 'jumpctx',
+                      decisions=decision_vectors(prng, 8, length=10), meta={'index': ix})
